@@ -39,6 +39,34 @@ CHECKS = {
         design_ref='DESIGN.md section 3 (C20)',
         note='Trusts: TLC; descriptors are integers on in-memory transports (no kernel); the arrival rule of the property '
              'is assumed, not tested.'),
+    'C01': dict(
+        technique='TLA+ reference codec Wire.tla; TLC enumerates the case space (one reachable state = one '
+                  'implementation test) and decides recorded random cases',
+        text='Every state of MC_Wire (types to depth 3 incl. variants/dicts/structs/sequences x boundary values x '
+             'offsets 0..7 x both byte orders, reference codec self-checked by TLC invariants) is encoded and decoded '
+             'by txdbus.marshal and compared (value and byte counts, several Python spellings of the same value); random '
+             'cases beyond the model (nesting 31, 400-element arrays) are recorded and decided by TLC.',
+        design_ref='DESIGN.md section 3 (C01/C02)',
+        note='Trusts: TLC; scalars are opaque limb tuples (numeric meaning of struct formats / UTF-8 only via boundary '
+             'values converted by the harness); UNIX_FD covered by C20.'),
+    'C02': dict(
+        technique='TLA+ reference codec Wire.tla (written from the DBus specification); byte-for-byte comparison in '
+                  'both directions; recorded random cases decided by TLC evaluating Enc',
+        text='Same case space as C01; the implementation must produce exactly the reference bytes and must decode the '
+             'reference bytes (catches symmetric errors); alignment/zero-padding/array-length rules are invariants of the '
+             'reference checked by TLC.',
+        design_ref='DESIGN.md section 3 (C01/C02)',
+        note='Trusts: TLC and the transcription of the DBus specification in Wire.tla (self-checked: Dec(Enc(v)) = v, '
+             'alignment, linear step count).'),
+    'C03': dict(
+        technique='TLA+ spec Message.tla (EncMsg / ParseMsg / WellFormed over Wire.tla); TLC generates foreign bytes and '
+                  'judges constructed bytes',
+        text='TLC enumerates messages (4 types x optional-field subsets x field orders x unknown field x flags x bodies x '
+             'byte order x signature position); the implementation parses each reference encoding (compared with the '
+             'model) and builds each constructible one (bytes judged by WellFormed/Recovered in TLC, serial counter '
+             'included); random messages both ways; size limit via overridable _maxMsgLen (real 128 MiB in thorough).',
+        design_ref='DESIGN.md section 3 (C03)',
+        note='Trusts: TLC; constructed field order is not prescribed (judged by reference parser); names validity is C18.'),
 }
 
 NOT_YET = 'check not built yet (build in progress; see DESIGN.md section 6)'
